@@ -256,6 +256,10 @@ Section Sound.
           apply (inv_step_result X rest res cache k i c sh HI (conj HvX EX) Hk Hc Hsib).
           intros e He. rewrite He in Hclash. apply heqb_eq. destruct (heqb e _) eqn:E; [reflexivity|discriminate].
         * rewrite (right_sibling_none n hempty hleaf hbranch l Hlen k i (proj1 HvX) Hemp) in Hrun.
+          cbv zeta in Hrun.
+          match type of Hrun with
+          | (if ?clash then _ else _) = _ => destruct clash eqn:Hclash; [discriminate|]
+          end.
           eapply IHfuel; [|exact Hrun|exact Hroot].
           apply (inv_step_cache X rest res cache k i c HI (conj HvX EX) Hk Hc Hemp).
   Qed.
